@@ -1,7 +1,8 @@
 /-
 C19 — detailed model of pywbem/_statistics.py (the arithmetic the coarse `Observer.Stats` leaves out).
 
-mirrors pywbem/_statistics.py: OperationStatistic.__init__/start_timer/stop_timer (count, exception count,
+mirrors pywbem/_statistics.py: Statistics.__call__/__enter__/__exit__ (the context manager used by the mock's
+  compile_mof_*/add_cimobjects and by users), OperationStatistic.__init__/start_timer/stop_timer (count, exception count,
   time sum/min/max, server-time sum/min/max with suspension, request/reply length sum/min/max, _start_time,
   _stat_start_time), avg_* properties (as the pair sum, count), Statistics.__init__/enable/disable/
   start_timer/get_op_statistic (the dummy statistic while disabled)/reset (refused while a timer runs)
@@ -136,6 +137,8 @@ inductive Op where
   | reset
   | enable
   | disable
+  | enter (n : Str) (now : Int)                         -- `with statistics(n):` is entered (__call__ + __enter__)
+  | exit (now : Int)                                    -- the with-block is left, normally or by an exception (__exit__)
   deriving Repr, Inhabited
 
 inductive Out where
@@ -143,17 +146,26 @@ inductive Out where
   | stopped (r : StopResult)
   | resetDone (ok : Bool)
   | unit
+  | exited (suppress : Bool) (r : StopResult)           -- what __exit__ returned (truthy = the exception is swallowed)
+  | indexError                                          -- __exit__ without a matching __enter__ (pop from empty list)
   deriving Repr, DecidableEq, Inhabited
 
 structure Run where
   stats : Stats := {}
   handles : List Handle := []
+  cm : List Handle := []                                -- _cm_stack (innermost last)
   deriving Repr, Inhabited
+
+/-- mirrors Statistics.__exit__: pop the statistic pushed by __enter__, stop_timer() without arguments, `return False`
+    (an exception raised in the with-block is re-raised; a RuntimeError of stop_timer escapes from __exit__) -/
+def exitCm (s : Stats) (h : Handle) (now : Int) : Stats × Bool × StopResult :=
+  let (s', res) := s.stopTimer h now none none none false
+  (s', false, res)
 
 def step (r : Run) : Op → Run × Out
   | .start n now =>
     let (s, h) := r.stats.startTimer n now
-    ({ stats := s, handles := r.handles ++ [h] }, .handle h)
+    ({ r with stats := s, handles := r.handles ++ [h] }, .handle h)
   | .stop idx now a b c e =>
     match r.handles[idx]? with
     | none => (r, .unit)
@@ -163,6 +175,15 @@ def step (r : Run) : Op → Run × Out
   | .reset => let (s, ok) := r.stats.reset; ({ r with stats := s }, .resetDone ok)
   | .enable => ({ r with stats := r.stats.enable }, .unit)
   | .disable => ({ r with stats := r.stats.disable }, .unit)
+  | .enter n now =>
+    let (s, h) := r.stats.startTimer n now
+    ({ r with stats := s, cm := r.cm ++ [h] }, .unit)
+  | .exit now =>
+    match r.cm.getLast? with
+    | none => (r, .indexError)
+    | some h =>
+      let (s, suppress, res) := exitCm r.stats h now
+      ({ r with stats := s, cm := r.cm.dropLast }, .exited suppress res)
 
 def run (r : Run) : List Op → Run × List Out
   | [] => (r, [])
